@@ -216,6 +216,14 @@ def run(ctx):
   done = {}
   for name, dpt in plan:
     done[name] = explore.bfs(ctx, explore.SPECS[name], dpt)[0]
+  # the same search from NON-initial states: the whole universe loaded
+  if not ctx.slice:
+    d2 = 3 if ctx.quick else 4
+    for name in ("c05.g1", "c05.g2"):
+      sp = explore.SPECS[name]
+      done[name + "@full"] = explore.bfs(
+          ctx, sp, d2, label=name + "@full",
+          prefix=universe.full_prefix(sp.version))[0]
   ctx.traces = ctx.transitions
   ctx.bound_completed = done
 
